@@ -105,7 +105,7 @@ type xl struct {
 
 // identifiers the generated text uses itself; a Go variable of such a name gets a trailing underscore
 var xReserved = strings.Fields(`ctl Next Return Panic bindc go_call wrapU wrapS go_len go_nth go_in_range go_slice
- go_slice_ok go_bytes_eqb go_be_u16 go_be_u32 go_be_u64 go_emit_u8 go_emit_u16 go_emit_u32 go_emit_u64 go_emit_bytes go_range go_count go_map_get go_map_set go_make go_iter rd fuel inl inr go_atomic_cas32 go_atomic_add32 go_search go_search_ok Some None
+ go_slice_ok go_bytes_eqb go_be_u16 go_be_u32 go_be_u64 go_emit_u8 go_emit_u16 go_emit_u32 go_emit_u64 go_emit_bytes go_range go_count go_map_get go_map_set go_make go_iter rd fuel inl inr go_atomic_cas32 go_atomic_add32 go_search go_search_ok Some None go_f32_to_f64
  andb orb negb implb true false tt nil cons list unit bool Z N nat fst snd pair Bool eqb
  fun let in if then else match with end as return forall exists fix cofix Type Prop Set struct where at using for IF
  Definition Fixpoint Record Lemma Theorem out st`)
@@ -182,8 +182,25 @@ func (x *xl) typeOf(e ast.Expr) types.Type {
 }
 
 // coqType: the Gallina type that represents values of the Go type t
+// xIsFloat: float32 (32) or float64 (64): represented by their IEEE bit patterns; only moved around, converted
+// to / from bits, widened (float64(f32)) and set to 0 - no arithmetic, no comparison
+func xIsFloat(t types.Type) int {
+	if b, ok := t.Underlying().(*types.Basic); ok {
+		switch b.Kind() {
+		case types.Float32:
+			return 32
+		case types.Float64:
+			return 64
+		}
+	}
+	return 0
+}
+
 func (x *xl) coqType(n ast.Node, t types.Type) string {
 	if _, _, ok := xIntType(t); ok {
+		return "Z"
+	}
+	if xIsFloat(t) != 0 {
 		return "Z"
 	}
 	switch {
@@ -240,6 +257,9 @@ func (x *xl) translatable(t types.Type) (ok bool) {
 
 func (x *xl) zero(n ast.Node, t types.Type) string {
 	if _, _, ok := xIntType(t); ok {
+		return "0"
+	}
+	if xIsFloat(t) != 0 {
 		return "0"
 	}
 	switch {
@@ -456,6 +476,12 @@ func (x *xl) expr(e ast.Expr, g *xGuards) string {
 		x.fail(e, "receiver field %s was not found by the pre-scan", x.src(e))
 	}
 	if tv, ok := x.info.Types[e]; ok && tv.Value != nil { // constant expression: value as the compiler sees it
+		if tv.Type != nil && xIsFloat(tv.Type) != 0 { // a float constant: only +0 (bit pattern 0)
+			if constant.Sign(tv.Value) == 0 && !strings.HasPrefix(tv.Value.ExactString(), "-") {
+				return "0"
+			}
+			x.fail(e, "float constant %s: only 0 is in the subset", x.src(e))
+		}
 		switch tv.Value.Kind() {
 		case constant.Int:
 			if n := x.namedConst(e, tv.Value); n != "" {
@@ -698,12 +724,24 @@ func (x *xl) call(e *ast.CallExpr, g *xGuards) string {
 			return "(" + strings.Join(as, " ") + " rd)"
 		}
 	}
+	switch x.src(e.Fun) { // floats are their bit patterns
+	case "math.Float32bits", "math.Float64bits", "math.Float32frombits", "math.Float64frombits":
+		if len(e.Args) == 1 {
+			return x.expr(e.Args[0], g)
+		}
+	}
 	if tv := x.info.Types[e.Fun]; tv.IsType() { // conversion T(v)
 		if len(e.Args) != 1 {
 			x.fail(e, "conversion with %d arguments", len(e.Args))
 		}
 		from, to := x.typeOf(e.Args[0]), tv.Type
 		a := x.expr(e.Args[0], g)
+		if xIsFloat(from) == 32 && xIsFloat(to) == 64 { // the exact widening, on bit patterns
+			return "(go_f32_to_f64 " + a + ")"
+		}
+		if xIsFloat(from) != 0 && xIsFloat(from) == xIsFloat(to) {
+			return a
+		}
 		fw, fs, fok := xIntType(from)
 		tw, ts, tok := xIntType(to)
 		switch {
